@@ -31,7 +31,7 @@ LEVEL_NOTE = "trusted: vf/sched.py hooks; the 40-line membership model in this m
 ASSUMPTIONS = ["ancestors of the calling doer are never removed (outside the quantifier)",
                "targets are the Doist or DoDoer(always=True) (the statement's scope)"]
 NSHARDS = {"quick": 8, "thorough": 16}
-REQUIRE = {"extend_calls_judged": 1500, "remove_calls_judged": 1500, "new_doers_entered": 1000, "running_doers_removed": 500,
+REQUIRE = {"own_list_object_as_argument": 100, "fresh_equal_bound_methods_passed": 100, "extend_calls_judged": 1500, "remove_calls_judged": 1500, "new_doers_entered": 1000, "running_doers_removed": 500,
            "self_removals": 150, "already_present_extends": 200, "absent_or_completed_removes": 200,
            "duplicate_within_call": 100, "dodoer_always_targets": 300}
 
@@ -68,7 +68,10 @@ def gen_case(rng):
             ids_.append(ids_[0])          # duplicate within one call
         if op == "remove" and rng.random() < 0.25:
             ids_.append(caller["id"])    # self removal
-        caller.setdefault("acts", {}).setdefault(str(k), []).append([op, target, ids_, False])
+        if rng.random() < 0.08:
+            ids_ = ["*"]                  # the scheduler's own member list object as the argument
+        fresh = rng.random() < 0.35       # bound-method doers named afresh (equal, not identical)
+        caller.setdefault("acts", {}).setdefault(str(k), []).append([op, target, ids_, False, fresh])
     prog = {"tock": tock, "tyme": rng.choice([0.0, 3.0]), "limit": tock * rng.choice([6, 9, 12]), "runner": "do",
             "doers": doers, "pool": pool, "dyadic": True}
     return {"prog": prog, "target": target}
@@ -161,6 +164,10 @@ def run_case(case, ctx):
                 return
             if len(set(ids_)) < len(ids_):
                 ctx.count("duplicate_within_call")
+            if info.get("own_list"):
+                ctx.count("own_list_object_as_argument")
+            if info.get("fresh"):
+                ctx.count("fresh_equal_bound_methods_passed", info["fresh"])
             if op == "extend":
                 ctx.count("extend_calls_judged")
                 new = []
